@@ -16,7 +16,7 @@ KSTATUS, KTE, KCL, KCONN, KPAD = 1, 2, 3, 4, 5
 CL_NONNUM, CL_NEG = 9998, 9999
 
 STATUS = {1: (100, b'Continue'), 2: (200, b'OK'), 3: (204, b'No Content'), 4: (304, b'Not Modified'),
-          5: (500, b'Internal Server Error')}
+          5: (500, b'Internal Server Error'), 6: (102, b'Processing'), 7: (103, b'Early Hints')}
 STATUS_IDX = {100: 1, 200: 2, 204: 3, 304: 4}
 TE_TEXT = {1: b'chunked', 2: b'Chunked', 3: b'gzip, chunked'}
 CONN_TEXT = {1: b'close', 2: b'keep-alive'}
@@ -227,6 +227,8 @@ def random_choice(rng, allow_trunc=True, persistent=False):
     ch['method'] = 'HEAD' if rng.random() < 0.12 else 'GET'
     ch['status'] = rng.choice([200] * 8 + [204, 304])
     ch['interim'] = 1 if rng.random() < 0.08 else 0
+    # which interim status: the abstraction only knows "an interim 1xx"; 102 / 103 executions are monitored only
+    ch['icode'] = rng.choice([100, 100, 102, 103])
     ch['ver'] = '1.0' if rng.random() < 0.1 else '1.1'
     ch['te'] = 'none' if ch['ver'] == '1.0' else rng.choice(['none'] * 4 + ['chunked'] * 4 + ['Chunked', 'gzip, chunked'])
     ch['cl'] = rng.choice(['none', 'exact', 'exact', 'exact', 'larger', 'smaller', 'nonnum', 'neg'])
@@ -296,7 +298,7 @@ def build_cmsg(ch, rng=None):
             lines.append(('head', line_text(tok(kind, val, 0), name, value), eol, tok(kind, val, 0)))
 
     if ch.get('interim'):
-        t = tok(KSTATUS, 1 * 2, 0)
+        t = tok(KSTATUS, {100: 1, 102: 6, 103: 7}[ch.get('icode', 100)] * 2, 0)
         lines.append(('ihead', line_text(t), eol, t))
         lines.append(('ihead', b'', eol, None))
     t = tok(KSTATUS, STATUS_IDX[status] * 2 + (1 if ver == b'1.0' else 0), 0)
@@ -329,6 +331,7 @@ def build_cmsg(ch, rng=None):
           'lines': lines, 'chunked': chk, 'chunks': [], 'last': b'', 'trailer': b'', 'raw': b'',
           'coded': coded and not bodyless, 'content': content if (coded and not bodyless) else b''}
     cm['ihead'] = b''.join(c + e for (p, c, e, t) in lines if p == 'ihead')
+    cm['interim_code'] = ch.get('icode', 100) if ch.get('interim') else 100
     cm['head'] = b''.join(c + e for (p, c, e, t) in lines if p == 'head')
     if chk:
         pos = 0
